@@ -70,17 +70,21 @@ def finish(pid, tier, seed, cfg, kf, outs, units_by_id, wall):
     per_case = {}
     for ob in obligations:
         k = (ob['unit'], ob['case'])
-        d = per_case.setdefault(k, dict(covered=False, refuted=False, n=0, canary=ob.get('is_canary', False), undecided_all=True))
+        d = per_case.setdefault(k, dict(covered=False, refuted=False, n=0, canary=ob.get('is_canary', False), undecided_all=True, undecided_any=False))
         d['n'] += 1
         d['covered'] = d['covered'] or bool(ob.get('covered'))
         d['refuted'] = d['refuted'] or ob['verdict'] == 'refuted'
         if ob['verdict'] not in ('undecided', 'not-applicable', 'carved-out'):
             d['undecided_all'] = False
+        if ob['verdict'] == 'undecided':
+            d['undecided_any'] = True
     for (u, c), d in per_case.items():
         if c == '*':
             continue
         if d['canary']:
-            if not d['refuted'] and not d['undecided_all']:
+            # (a canary that is undecided on some instance - unsupported construct, time limit - says nothing either way: the instance
+            # that would have refuted it may be that one)
+            if not d['refuted'] and not d['undecided_any']:
                 checker_errors.append(f'canary of {u} was not refuted: the engine may prove too much')
         elif not d['covered'] and not d['undecided_all'] and c != 'no_python_exception':
             checker_errors.append(f'vacuous contract: case {c!r} of {u} is not reachable under its precondition')
